@@ -35,6 +35,7 @@ type Options struct {
 	Tier         int
 	MaxSeconds   int
 	Progress     bool
+	Witnesses    int // number of completed paths for which a concrete model is extracted (translator validation)
 }
 
 type Input struct {
@@ -91,6 +92,7 @@ type HarnessResult struct {
 	PathLimit   bool                   `json:"path_limit_hit"`
 	Dumped      []string               `json:"dumped_queries,omitempty"`
 	SamplePaths []string               `json:"sample_paths,omitempty"`
+	Witnesses   []Violation            `json:"witnesses,omitempty"`
 	ConcreteObs []string               `json:"concrete_observations,omitempty"`
 }
 
@@ -106,6 +108,7 @@ type Engine struct {
 	res     *HarnessResult
 	started int
 	dumpN   int
+	witN    int
 	stop    bool
 }
 
@@ -340,6 +343,9 @@ func (e *Engine) finish(p *Path) {
 	if len(r.SamplePaths) < 3 && p.status == "OK" && len(p.notes) > 0 {
 		r.SamplePaths = append(r.SamplePaths, strings.Join(p.notes, "; "))
 	}
+	if p.witness != nil {
+		r.Witnesses = append(r.Witnesses, *p.witness)
+	}
 	for _, alt := range p.newAlts {
 		e.work = append(e.work, alt)
 	}
@@ -398,6 +404,7 @@ type Path struct {
 	ghost    map[string]Value
 	inInit   bool
 	payload  map[*Term]Value
+	witness  *Violation
 	pcDirty  bool // assumptions added since the last satisfiability check
 }
 
@@ -769,6 +776,7 @@ func (p *Path) run() {
 		p.runInit()
 		p.call(nil, p.fn, nil)
 		p.ensureFeasible()
+		p.maybeWitness()
 		p.end("OK", "")
 	})
 	<-p.finished
@@ -845,4 +853,39 @@ func (p *Path) fallbackCheck(assump *Term) (Result, string) {
 		}
 	}
 	return Unknown, ""
+}
+
+// maybeWitness extracts a concrete model of a completed path (every k-th path
+// until the budget is used) so that the same inputs can be run natively.
+func (p *Path) maybeWitness() {
+	e := p.eng
+	if e.Opt.Witnesses == 0 || e.Opt.Concrete {
+		return
+	}
+	e.mu.Lock()
+	take := e.witN < e.Opt.Witnesses && e.res.Paths%e.witStride() == 0
+	if take {
+		e.witN++
+	}
+	e.mu.Unlock()
+	if !take {
+		return
+	}
+	if p.check(p.ctx.True) != Sat {
+		return
+	}
+	v := Violation{Harness: e.Opt.Harness, Notes: append([]string{}, p.covers...)}
+	p.fillModel(&v)
+	v.Trace = append([]int{}, p.trace...)
+	p.witness = &v
+}
+
+func (e *Engine) witStride() int {
+	// spread witnesses over the exploration: early paths densely, later ones sparsely
+	switch {
+	case e.witN < e.Opt.Witnesses/2:
+		return 1
+	default:
+		return 7
+	}
 }
